@@ -236,10 +236,15 @@ def component_spec(spec, i):
     return spec
 
 
+NAME_BY_KIND = [False]  # set per run: step names are the step kinds (so two trends share the name "trend")
+
+
 def build_composite(spec):
     import verde as vd
 
     if spec[0] == "chain":
+        if NAME_BY_KIND[0]:
+            return vd.Chain([(s[0], build_composite(s)) for s in spec[1]])
         return vd.Chain([(f"s{i}", build_composite(s)) for i, s in enumerate(spec[1])])
     if spec[0] == "vector":
         return vd.Vector([build_composite(s) for s in spec[1]])
@@ -254,6 +259,11 @@ class History:
         self.ncomp = tape.weighted([(1, 3), (2, 2)], "ncomp")
         self.has_w = bool(tape.draw(2, "weights"))
         self.spec = gen_composite(tape, self.ncomp, self.has_w)
+        # Chain does not ask for unique step names: a third of the composites name their steps by kind
+        NAME_BY_KIND[0] = bool(tape.coin(0.33, "names_by_kind"))
+        # data stay float64: with float32 data the promotion order inside the steps makes composite and
+        # model differ by legitimate 1e-8 rounding (tried), and dtype behaviour is C04's subject
+        self.f32 = False
         self.guard = ArgGuard()
         self.pool = []
         same_size = tape.coin(0.35, "pool.same_size")
@@ -288,6 +298,9 @@ class History:
         self.last_predict = None
 
     def _protect(self, ds):
+        if self.f32:
+            ds.data = tuple(np.asarray(d, dtype="float32") for d in ds.data)
+            ds.desc["dtype"] = "float32"
         ro = not self.tape.coin(0.35, "writable")
         ds.desc["readonly"] = ro
         ds.coordinates = self.guard.add_all(ds.coordinates, ro)
